@@ -1,3 +1,134 @@
+import Driver.Util
 import Driver.Loop
-/- placeholder: the C06 view has no executable model yet -/
-def main : IO Unit := Drv.runLoop fun _ => .atom "bad-op"
+import PMV.Model.Dual
+/- line-protocol handler for the C06 view: runs the `Float` instance of the derivative model.
+
+   request   (c06 run (env b…) (um T|F …) (dirs (label (b|n …)) …) (progs p …))
+             env   : operand components as IEEE-754 bit patterns (decimal UInt64)
+             um    : unmasked flag per component
+             dirs  : one derivative direction (key, denominator index) each: per component the
+                     derivative's bit pattern, or `n` when the operand lacks the key
+             progs : one item-level program per result element
+   response  ((val e …) (label e …) …)   e = m (masked) | n (no derivative for the key) | (b …)
+-/
+namespace Drv.C06
+open PMV PMV.Dual
+
+abbrev F := Float
+
+def fbits (s : Sx) : Option F := s.toNat?.map fun n => Float.ofBits n.toUInt64
+
+def parseE1 : String → Option (E F)
+  | "neg" => some (.neg (.var 0)) | "abs" => some (.abs (.var 0)) | "recip" => some (.recip (.var 0))
+  | "pow0" => some (.pow0 (.var 0)) | "pow2" => some (.pow2 (.var 0)) | "pow3" => some (.pow3 (.var 0))
+  | "pow4" => some (.pow4 (.var 0)) | "sin" => some (.sin (.var 0)) | "cos" => some (.cos (.var 0))
+  | "tan" => some (.tan (.var 0)) | "asin" => some (.asin (.var 0)) | "acos" => some (.acos (.var 0))
+  | "atan" => some (.atan (.var 0)) | "exp" => some (.exp (.var 0)) | "log" => some (.log (.var 0))
+  | "sqrt" => some (.sqrt (.var 0))
+  -- `x ** -0.5`: scalar.py:1522 `self.sqrt().reciprocal()`
+  | "pownh" => some (.recip (.sqrt (.var 0)))
+  | _ => none
+
+structure Ctx where
+  env : Array F
+  um : Array Bool
+  denv : Array (Option F)
+
+def Ctx.e (c : Ctx) (i : Nat) : F := c.env[i]!
+def Ctx.u (c : Ctx) (i : Nat) : Bool := c.um[i]!
+def Ctx.d (c : Ctx) (i : Nat) : Option F := c.denv[i]!
+
+partial def evalP (c : Ctx) : Sx → Option (Val F)
+  | .list (.atom "opd" :: idx) => do
+    let idx ← idx.mapM Sx.toNat?
+    some (Val.opd idx c.e c.d c.u)
+  | .list (.atom "lit" :: bs) => do
+    let vs ← bs.mapM fbits
+    some ⟨vs, none, true⟩
+  | .list [.atom "add", p, q] => do some (Val.add (← evalP c p) (← evalP c q))
+  | .list [.atom "sub", p, q] => do some (Val.sub (← evalP c p) (← evalP c q))
+  | .list [.atom "neg", p] => do some (Val.neg (← evalP c p))
+  | .list [.atom "nscale", k, p] => do some (Val.nscale (← fbits k) (← evalP c p))
+  | .list [.atom "ndiv", p, k] => do some (Val.ndiv (← evalP c p) (← fbits k))
+  | .list [.atom "smul", p, s] => do some (Val.smul (← evalP c p) (← evalP c s))
+  | .list [.atom "sdiv", p, s] => do some (Val.sdiv (← evalP c p) (← evalP c s))
+  | .list [.atom "u", .atom f, p] => do some (Val.sc1 (← parseE1 f) (← evalP c p))
+  | .list [.atom "powi", n, p] => do some (Val.sc1 (.powi (← n.toInt?) (.var 0)) (← evalP c p))
+  | .list [.atom "powg", k, p] => do some (Val.sc1 (.powg (← fbits k) (.var 0)) (← evalP c p))
+  | .list [.atom "atan2", y, x] => do some (Val.sc2 (.atan2 (.var 0) (.var 1)) (← evalP c y) (← evalP c x))
+  | .list [.atom "dot", p, q] => do some (Val.dot (← evalP c p) (← evalP c q))
+  | .list [.atom "normsq", p] => do some (Val.normSq (← evalP c p))
+  | .list [.atom "norm", p] => do some (Val.norm (← evalP c p))
+  | .list [.atom "cross3", p, q] => do some (Val.cross3 (← evalP c p) (← evalP c q))
+  | .list [.atom "cross2", p, q] => do some (Val.cross2 (← evalP c p) (← evalP c q))
+  | .list [.atom "outer", p, q] => do some (Val.outer (← evalP c p) (← evalP c q))
+  | .list [.atom "emul", p, q] => do some (Val.emul (← evalP c p) (← evalP c q))
+  | .list [.atom "ediv", p, q] => do some (Val.ediv (← evalP c p) (← evalP c q))
+  | .list [.atom "comp", i, p] => do some (Val.comp (← i.toNat?) (← evalP c p))
+  | .list [.atom "slice", i, j, p] => do some (Val.slice (← i.toNat?) (← j.toNat?) (← evalP c p))
+  | .list [.atom "widen", p, q] => do some (Val.widen (← evalP c p) (← evalP c q))
+  | .list [.atom "cat", p, q] => do some (Val.cat (← evalP c p) (← evalP c q))
+  | .list [.atom "matmul", m, k, n, p, q] => do
+    some (Val.matmul (← m.toNat?) (← k.toNat?) (← n.toNat?) (← evalP c p) (← evalP c q))
+  | .list [.atom "transpose", m, n, p] => do some (Val.transpose (← m.toNat?) (← n.toNat?) (← evalP c p))
+  | .list [.atom "inverse", n, p] => do some (Val.inverse (← n.toNat?) (← evalP c p))
+  | .list [.atom "rot", ax, p] => do some (Val.rot (← ax.toNat?) (← evalP c p))
+  | .list [.atom "qmul", p, q] => do some (Val.qmul (← evalP c p) (← evalP c q))
+  | .list [.atom "qconj", p] => do some (Val.qconj (← evalP c p))
+  | .list [.atom "unit", p] => do some (Val.unit (← evalP c p))
+  | .list [.atom "proj", p, q] => do some (Val.proj (← evalP c p) (← evalP c q))
+  | .list [.atom "perp", p, q] => do some (Val.perp (← evalP c p) (← evalP c q))
+  | .list [.atom "ucross", p, q] => do some (Val.ucross (← evalP c p) (← evalP c q))
+  | .list [.atom "withnorm", p, n] => do some (Val.withNorm (← evalP c p) (← evalP c n))
+  | .list [.atom "qrecip", p] => do some (Val.qrecip (← evalP c p))
+  | _ => none
+
+def outBits (l : List F) : Sx := .list (l.map fun x => Sx.ofNat x.toBits.toNat)
+
+def parseD : Sx → Option (Option F)
+  | .atom "n" => some none
+  | x => (fbits x).map some
+
+def handle : List Sx → Sx
+  | [.atom "run", .list (.atom "env" :: env), .list (.atom "um" :: um), .list (.atom "dirs" :: dirs),
+     .list (.atom "progs" :: progs)] =>
+    match env.mapM fbits, um.mapM Sx.toBool? with
+    | some env, some um =>
+      let noD : Array (Option F) := (env.map fun _ => none).toArray
+      let runDir (label : Sx) (denv : Array (Option F)) (isVal : Bool) : Sx :=
+        let c : Ctx := ⟨env.toArray, um.toArray, denv⟩
+        .list (label :: progs.map fun p =>
+          match evalP c p with
+          | none => .atom "bad-prog"
+          | some r =>
+            if isVal then (if r.ok then outBits r.v else .atom "m")
+            else match r.d with
+              | none => .atom "n"
+              | some d => if r.ok then outBits d else .atom "m")
+      let dirOuts := dirs.map fun d =>
+        match d with
+        | .list [label, .list ds] =>
+          match ds.mapM parseD with
+          | some ds => runDir label ds.toArray false
+          | none => err "dir"
+        | _ => err "dir"
+      -- values: masked iff masked under some direction (value and derivative share the flag);
+      -- with no direction at all the value run uses the empty key
+      let valOut :=
+        match dirs with
+        | [] => runDir (.atom "val") noD true
+        | .list [_, .list ds] :: _ =>
+          match ds.mapM parseD with
+          | some ds => runDir (.atom "val") ds.toArray true
+          | none => err "dir"
+        | _ => err "dir"
+      .list (valOut :: dirOuts)
+    | _, _ => err "env"
+  | _ => err "c06-op"
+
+end Drv.C06
+
+def main : IO Unit := Drv.runLoop fun x =>
+  match x with
+  | .list (.atom "c06" :: rest) => Drv.C06.handle rest
+  | _ => .atom "bad-op"
